@@ -1,4 +1,914 @@
-From Pybtex Require Import Base.Prelude Base.PyChar Base.PyStr Model.BibtexStr.
+(* Proofs/BibtexStr.v -- lemmas about Model/BibtexStr.v (property C12), part 1:
+   the scanner, text length, prefix, substring, purify. *)
+From Pybtex Require Import Base.Prelude Base.PyChar Base.PyStr Model.BibtexStr Spec.BibtexStrSpec.
 
 Lemma substring_start_zero s l : bibtex_substring s 0 l = [].
 Proof. reflexivity. Qed.
+
+(* ------------------------------------------------------------------ generic *)
+Lemma bind_Ok {X Y} (r : res X) (f : X -> res Y) y :
+  bind r f = Ok y -> exists x, r = Ok x /\ f x = Ok y.
+Proof. destruct r; cbn; intros H; try discriminate. eauto. Qed.
+
+Lemma lb_eq c : is_lbrace c = true -> c = c_lbrace.
+Proof. unfold is_lbrace. apply N.eqb_eq. Qed.
+Lemma rb_eq c : is_rbrace c = true -> c = c_rbrace.
+Proof. unfold is_rbrace. apply N.eqb_eq. Qed.
+
+Ltac inv_ok :=
+  repeat match goal with
+  | H : bind _ _ = Ok _ |- _ =>
+    let x := fresh "r" in let H1 := fresh "Hr" in let H2 := fresh "Hk" in
+    apply bind_Ok in H; destruct H as (x & H1 & H2)
+  | H : Ok _ = Ok _ |- _ => injection H as H; subst
+  end.
+
+Definition bs_head (s : str) : bool :=
+  match s with b :: _ => N.eqb b c_bslash | [] => false end.
+
+(* ------------------------------------------------------------------ depth *)
+Lemma depth_from_app d a b :
+  depth_from d (a ++ b) = match depth_from d a with Some d' => depth_from d' b | None => None end.
+Proof.
+  revert d; induction a as [|c a IH]; intros d; cbn [app depth_from]; [reflexivity|].
+  destruct (N.eqb c c_lbrace); [apply IH|].
+  destruct (N.eqb c c_rbrace); [|apply IH].
+  destruct d; [reflexivity|apply IH].
+Qed.
+
+(* every token's level is the brace depth right after it, starting from depth [d] *)
+Fixpoint toks_ok (d : nat) (ts : list tok) : Prop :=
+  match ts with
+  | [] => True
+  | (t, l) :: r => depth_from d t = Some l /\ toks_ok l r
+  end.
+
+Lemma toks_ok_split d ts1 t l ts2 :
+  toks_ok d (ts1 ++ (t, l) :: ts2) -> depth_from d (concat (map fst ts1) ++ t) = Some l.
+Proof.
+  revert d; induction ts1 as [|[t1 l1] ts1 IH]; intros d; cbn [app map concat fst toks_ok].
+  - intros [H _]. exact H.
+  - intros [H1 H2]. rewrite <- app_assoc, depth_from_app, H1. apply IH. exact H2.
+Qed.
+
+(* ------------------------------------------------------------------ scan: lossless, levels *)
+Lemma scan_go_balanced : forall s level sp ts,
+  scan_go s level sp = Ok ts ->
+  match sp with
+  | None => depth_from level s = Some 0 -> concat (map fst ts) = s /\ toks_ok level ts
+  | Some (d, acc) =>
+    depth_from (S d) s = Some 0 -> depth_from 1 (rev acc) = Some (S d) ->
+    concat (map fst ts) = rev acc ++ s /\ toks_ok 1 ts
+  end.
+Proof.
+  induction s as [|c t IH]; intros level sp ts H.
+  - destruct sp as [[d acc]|]; cbn [scan_go] in H.
+    + intros Hd. discriminate.
+    + inv_ok. intros _. split; [reflexivity|exact I].
+  - destruct sp as [[d acc]|]; cbn [scan_go] in H.
+    + intros Hd Hacc. cbn [depth_from] in Hd.
+      destruct (is_lbrace c) eqn:El.
+      * destruct (Nat.ltb max_level (2 + d)); [discriminate|].
+        apply lb_eq in El; subst c.
+        apply IH in H. cbn beta iota in H. change (N.eqb c_lbrace c_lbrace) with true in Hd.
+        cbn iota in Hd.
+        destruct H as [H1 H2]; [exact Hd| |].
+        { cbn [rev]. rewrite depth_from_app, Hacc. reflexivity. }
+        split; [|exact H2]. rewrite H1. cbn [rev]. rewrite <- app_assoc. reflexivity.
+      * unfold is_lbrace in El. rewrite El in Hd.
+        destruct (is_rbrace c) eqn:Er.
+        -- apply rb_eq in Er; subst c. change (N.eqb c_rbrace c_rbrace) with true in Hd. cbn iota in Hd.
+           destruct d as [|d'].
+           ++ inv_ok. apply IH in Hr. cbn beta iota in Hr. destruct (Hr Hd) as [H1 H2].
+              split.
+              ** cbn [map concat fst]. rewrite H1. reflexivity.
+              ** cbn [toks_ok]. split; [exact Hacc|]. split; [reflexivity|exact H2].
+           ++ apply IH in H. cbn beta iota in H.
+              destruct H as [H1 H2]; [exact Hd| |].
+              { cbn [rev]. rewrite depth_from_app, Hacc. reflexivity. }
+              split; [|exact H2]. rewrite H1. cbn [rev]. rewrite <- app_assoc. reflexivity.
+        -- unfold is_rbrace in Er. rewrite Er in Hd.
+           apply IH in H. cbn beta iota in H.
+           destruct H as [H1 H2]; [exact Hd| |].
+           { cbn [rev]. rewrite depth_from_app, Hacc. cbn [depth_from]. rewrite El, Er. reflexivity. }
+           split; [|exact H2]. rewrite H1. cbn [rev]. rewrite <- app_assoc. reflexivity.
+    + intros Hd. cbn [depth_from] in Hd.
+      destruct (is_lbrace c) eqn:El.
+      * apply lb_eq in El; subst c. change (N.eqb c_lbrace c_lbrace) with true in Hd. cbn iota in Hd.
+        match type of H with context [if ?b then _ else _] => destruct b eqn:Esp end.
+        -- inv_ok. apply andb_prop in Esp as [E0 _]. apply Nat.eqb_eq in E0; subst level.
+           apply IH in Hr. cbn beta iota in Hr. destruct (Hr Hd eq_refl) as [H1 H2].
+           split.
+           ++ cbn [map concat fst]. rewrite H1. reflexivity.
+           ++ cbn [toks_ok]. split; [reflexivity|exact H2].
+        -- destruct (Nat.ltb max_level (S level)); [discriminate|].
+           inv_ok. apply IH in Hr. cbn beta iota in Hr. destruct (Hr Hd) as [H1 H2].
+           split.
+           ++ cbn [map concat fst]. rewrite H1. reflexivity.
+           ++ cbn [toks_ok]. split; [reflexivity|exact H2].
+      * unfold is_lbrace in El. rewrite El in Hd.
+        destruct (is_rbrace c) eqn:Er.
+        -- apply rb_eq in Er; subst c. change (N.eqb c_rbrace c_rbrace) with true in Hd. cbn iota in Hd.
+           destruct level as [|l']; [discriminate|].
+           cbn [andb Nat.ltb Nat.leb pred] in H. inv_ok.
+           apply IH in Hr. cbn beta iota in Hr. destruct (Hr Hd) as [H1 H2].
+           split.
+           ++ cbn [map concat fst]. rewrite H1. reflexivity.
+           ++ cbn [toks_ok]. split; [reflexivity|exact H2].
+        -- unfold is_rbrace in Er. rewrite Er in Hd. cbn [andb] in H. inv_ok.
+           apply IH in Hr. cbn beta iota in Hr. destruct (Hr Hd) as [H1 H2].
+           split.
+           ++ cbn [map concat fst]. rewrite H1. reflexivity.
+           ++ cbn [toks_ok]. split; [|exact H2]. cbn [depth_from]. rewrite El, Er. reflexivity.
+Qed.
+
+Lemma scan_lossless_lemma s ts : balanced s -> scan s = Ok ts -> concat (map fst ts) = s.
+Proof. intros Hb H. apply scan_go_balanced in H. apply H. exact Hb. Qed.
+
+Lemma scan_levels_lemma s ts1 t l ts2 :
+  balanced s -> scan s = Ok (ts1 ++ (t, l) :: ts2) ->
+  depth_from 0 (concat (map fst ts1) ++ t) = Some l.
+Proof.
+  intros Hb H. apply scan_go_balanced in H. destruct (H Hb) as [_ H2].
+  eapply toks_ok_split. exact H2.
+Qed.
+
+(* ------------------------------------------------------------------ scan: totality *)
+Definition st_depth (level : nat) (sp : option (nat * str)) : nat :=
+  match sp with None => level | Some (d, _) => S d end.
+
+Lemma scan_go_total : forall s level sp,
+  if too_deep max_level (st_depth level sp) s
+  then scan_go s level sp = PyErr E_BIBTEX (-1)
+  else exists ts, scan_go s level sp = Ok ts.
+Proof.
+  induction s as [|c t IH]; intros level sp.
+  - destruct sp as [[d acc]|]; cbn [scan_go too_deep]; eauto.
+  - destruct sp as [[d acc]|]; cbn [scan_go too_deep st_depth].
+    + unfold is_lbrace, is_rbrace.
+      destruct (N.eqb c c_lbrace) eqn:El.
+      * change (2 + d) with (S (S d)).
+        destruct (Nat.ltb max_level (S (S d))); cbn [orb]; [reflexivity|].
+        apply (IH level (Some (S d, c :: acc))).
+      * destruct (N.eqb c c_rbrace) eqn:Er.
+        -- destruct d as [|d']; cbn [pred].
+           ++ specialize (IH 0 None). cbn [st_depth] in IH.
+              destruct (too_deep max_level 0 t).
+              ** rewrite IH. reflexivity.
+              ** destruct IH as [r Hr]. rewrite Hr. cbn [bind]. eauto.
+           ++ apply (IH level (Some (d', c :: acc))).
+        -- apply (IH level (Some (d, c :: acc))).
+    + unfold is_lbrace, is_rbrace.
+      destruct (N.eqb c c_lbrace) eqn:El.
+      * destruct (Nat.eqb level 0 && bs_head t) eqn:Esp; unfold bs_head in Esp; rewrite Esp.
+        -- apply andb_prop in Esp as [E0 _]. apply Nat.eqb_eq in E0; subst level.
+           change (Nat.ltb max_level 1) with false. cbn [orb].
+           specialize (IH 0 (Some (0, []))). cbn [st_depth] in IH.
+           destruct (too_deep max_level 1 t).
+           ++ rewrite IH. reflexivity.
+           ++ destruct IH as [r Hr]. rewrite Hr. cbn [bind]. eauto.
+        -- destruct (Nat.ltb max_level (S level)); cbn [orb]; [reflexivity|].
+           specialize (IH (S level) None). cbn [st_depth] in IH.
+           destruct (too_deep max_level (S level) t).
+           ++ rewrite IH. reflexivity.
+           ++ destruct IH as [r Hr]. rewrite Hr. cbn [bind]. eauto.
+      * destruct (N.eqb c c_rbrace) eqn:Er; cbn [andb].
+        -- destruct level as [|l']; cbn [Nat.ltb Nat.leb pred].
+           ++ specialize (IH 0 None). cbn [st_depth] in IH.
+              destruct (too_deep max_level 0 t).
+              ** rewrite IH. reflexivity.
+              ** destruct IH as [r Hr]. rewrite Hr. cbn [bind]. eauto.
+           ++ specialize (IH l' None). cbn [st_depth] in IH.
+              destruct (too_deep max_level l' t).
+              ** rewrite IH. reflexivity.
+              ** destruct IH as [r Hr]. rewrite Hr. cbn [bind]. eauto.
+        -- specialize (IH level None). cbn [st_depth] in IH.
+           destruct (too_deep max_level level t).
+           ++ rewrite IH. reflexivity.
+           ++ destruct IH as [r Hr]. rewrite Hr. cbn [bind]. eauto.
+Qed.
+
+Lemma scan_total_lemma s :
+  (too_deep 100 0 s = true /\ scan s = PyErr E_BIBTEX (-1)) \/
+  (too_deep 100 0 s = false /\ exists ts, scan s = Ok ts).
+Proof.
+  pose proof (scan_go_total s 0 None) as H. cbn [st_depth] in H. change max_level with 100 in H.
+  unfold scan. destruct (too_deep 100 0 s); [left|right]; split; auto.
+Qed.
+
+(* ------------------------------------------------------------------ text length *)
+Definition cnt (ts : list tok) : nat :=
+  length (filter (fun t => negb (tok_is_brace (fst t))) ts).
+
+Lemma cnt_cons x l r : cnt ((x, l) :: r) = (if tok_is_brace x then 0 else 1) + cnt r.
+Proof. unfold cnt. cbn [filter fst]. destruct (tok_is_brace x); reflexivity. Qed.
+
+Lemma cnt_app a b : cnt (a ++ b) = cnt a + cnt b.
+Proof. unfold cnt. rewrite filter_app, app_length. reflexivity. Qed.
+
+Lemma bs_head_not_brace x : bs_head x = true -> tok_is_brace x = false.
+Proof.
+  destruct x as [|b x]; cbn [bs_head]; [discriminate|]. intros H. apply N.eqb_eq in H; subst b.
+  destruct x as [|b2 [|b3 x]]; reflexivity.
+Qed.
+
+Lemma bs_head_app_rb a t : bs_head (a ++ c_rbrace :: t) = true -> bs_head a = true.
+Proof. destruct a; cbn [app bs_head]; [discriminate|auto]. Qed.
+
+Lemma bs_head_snoc acc c t : bs_head (rev (c :: acc) ++ t) = bs_head (rev acc ++ c :: t).
+Proof. cbn [rev]. rewrite <- app_assoc. reflexivity. Qed.
+
+Lemma scan_go_len : forall s level sp ts,
+  scan_go s level sp = Ok ts ->
+  match sp with
+  | None => cnt ts = text_len_go s level None
+  | Some (d, acc) => bs_head (rev acc ++ s) = true -> cnt ts = text_len_go s level (Some d)
+  end.
+Proof.
+  induction s as [|c t IH]; intros level sp ts H.
+  - destruct sp as [[d acc]|]; cbn [scan_go] in H; inv_ok.
+    + rewrite app_nil_r. intros Hb. rewrite !cnt_cons, (bs_head_not_brace _ Hb). reflexivity.
+    + reflexivity.
+  - destruct sp as [[d acc]|]; cbn [scan_go] in H; cbn [text_len_go].
+    + intros Hb. unfold is_lbrace, is_rbrace in H.
+      destruct (N.eqb c c_lbrace) eqn:El.
+      * destruct (Nat.ltb max_level (2 + d)); [discriminate|].
+        apply IH in H. cbn beta iota in H. apply H. rewrite bs_head_snoc. exact Hb.
+      * destruct (N.eqb c c_rbrace) eqn:Er.
+        -- apply N.eqb_eq in Er; subst c. destruct d as [|d'].
+           ++ inv_ok. apply IH in Hr. cbn beta iota in Hr.
+              rewrite !cnt_cons, (bs_head_not_brace _ (bs_head_app_rb _ _ Hb)), Hr. reflexivity.
+           ++ apply IH in H. cbn beta iota in H. apply H. rewrite bs_head_snoc. exact Hb.
+        -- apply IH in H. cbn beta iota in H. apply H. rewrite bs_head_snoc. exact Hb.
+    + unfold is_lbrace, is_rbrace in H.
+      destruct (N.eqb c c_lbrace) eqn:El.
+      * apply N.eqb_eq in El; subst c.
+        fold (bs_head t) in H |- *.
+        destruct (Nat.eqb level 0 && bs_head t) eqn:Esp.
+        -- inv_ok. apply andb_prop in Esp as [E0 Eb]. apply Nat.eqb_eq in E0; subst level.
+           apply IH in Hr. cbn beta iota in Hr. rewrite cnt_cons. cbn [rev app] in Hr.
+           rewrite (Hr Eb). reflexivity.
+        -- destruct (Nat.ltb max_level (S level)); [discriminate|]. inv_ok.
+           apply IH in Hr. cbn beta iota in Hr. rewrite cnt_cons, Hr. reflexivity.
+      * destruct (N.eqb c c_rbrace) eqn:Er; cbn [andb] in H.
+        -- apply N.eqb_eq in Er; subst c.
+           destruct level as [|l']; cbn [Nat.ltb Nat.leb pred] in H |- *; inv_ok;
+             apply IH in Hr; cbn beta iota in Hr; rewrite cnt_cons, Hr; reflexivity.
+        -- inv_ok. apply IH in Hr. cbn beta iota in Hr. rewrite cnt_cons, Hr.
+           cbn [tok_is_brace]. unfold is_brace, is_lbrace, is_rbrace. rewrite El, Er. reflexivity.
+Qed.
+
+Lemma len_counts_lemma s ts : scan s = Ok ts ->
+  bibtex_len s = Ok (length (filter (fun t => negb (tok_is_brace (fst t))) ts)).
+Proof. intros H. unfold bibtex_len. rewrite H. reflexivity. Qed.
+
+Lemma len_spec_lemma s n : bibtex_len s = Ok n -> n = text_len s.
+Proof.
+  unfold bibtex_len. intros H. inv_ok. apply scan_go_len in Hr. exact Hr.
+Qed.
+
+(* ------------------------------------------------------------------ text prefix *)
+Definition pfx (ts : list tok) (len n : Z) (ll : nat) : str :=
+  let r := prefix_go ts len n ll in fst r ++ repeat c_rbrace (snd r).
+
+Lemma pfx_nil len n ll : pfx [] len n ll = repeat c_rbrace ll.
+Proof. reflexivity. Qed.
+
+Lemma pfx_cons t l rest len n ll :
+  pfx ((t, l) :: rest) len n ll =
+  let len' := if tok_is_brace t then len else (len + 1)%Z in
+  if (n <=? len')%Z then t ++ repeat c_rbrace l else t ++ pfx rest len' n l.
+Proof.
+  unfold pfx. cbn [prefix_go]. cbv zeta.
+  destruct (n <=? (if tok_is_brace t then len else (len + 1)))%Z; cbn [fst snd]; [reflexivity|].
+  rewrite <- app_assoc. reflexivity.
+Qed.
+
+(* the output of bibtex_prefix computed directly on the string: the characters consumed,
+   then one closing brace per level of the scanner at the cut *)
+Fixpoint F (s : str) (level : nat) (sp : option nat) (len n : Z) : str :=
+  match s with
+  | [] => match sp with None => repeat c_rbrace level | Some _ => [c_rbrace] end
+  | c :: t =>
+    match sp with
+    | Some d =>
+      if is_lbrace c then c :: F t level (Some (S d)) len n
+      else if is_rbrace c then
+        match d with
+        | O => c :: (if (n <=? len + 1)%Z then [] else F t 0 None (len + 1) n)
+        | S d' => c :: F t level (Some d') len n
+        end
+      else c :: F t level (Some d) len n
+    | None =>
+      if is_lbrace c then
+        if Nat.eqb level 0 && bs_head t then c :: F t 0 (Some 0) len n
+        else c :: F t (S level) None len n
+      else if is_rbrace c && Nat.ltb 0 level then c :: F t (pred level) None len n
+      else if is_brace c then c :: F t level None len n
+      else c :: (if (n <=? len + 1)%Z then repeat c_rbrace level else F t level None (len + 1) n)
+    end
+  end.
+
+Lemma F_head s level sp len n : bs_head (F s level sp len n) = bs_head s.
+Proof.
+  destruct s as [|c t].
+  - destruct sp; cbn [F bs_head]; [reflexivity|]. destruct level; reflexivity.
+  - cbn [F]. destruct sp as [d|].
+    + destruct (is_lbrace c); [reflexivity|]. destruct (is_rbrace c); [|reflexivity].
+      destruct d; reflexivity.
+    + destruct (is_lbrace c).
+      * destruct (Nat.eqb level 0 && bs_head t); reflexivity.
+      * destruct (is_rbrace c && Nat.ltb 0 level); [reflexivity|].
+        destruct (is_brace c); reflexivity.
+Qed.
+
+Lemma prefix_fused : forall s level sp ts len n ll, (len < n)%Z ->
+  scan_go s level sp = Ok ts ->
+  match sp with
+  | None => pfx ts len n level = F s level None len n
+  | Some (d, acc) => bs_head (rev acc ++ s) = true ->
+                     pfx ts len n ll = rev acc ++ F s level (Some d) len n
+  end.
+Proof.
+  induction s as [|c t IH]; intros level sp ts len n ll Hlt H.
+  - destruct sp as [[d acc]|]; cbn [scan_go] in H; inv_ok.
+    + rewrite app_nil_r. intros Hb. rewrite pfx_cons, (bs_head_not_brace _ Hb). cbv zeta.
+      destruct (n <=? len + 1)%Z eqn:E; [reflexivity|].
+      rewrite pfx_cons. cbn [tok_is_brace]. change (is_brace c_rbrace) with true. cbv iota zeta.
+      rewrite E. rewrite pfx_nil. reflexivity.
+    + reflexivity.
+  - destruct sp as [[d acc]|]; cbn [scan_go] in H; cbn [F].
+    + intros Hb.
+      destruct (is_lbrace c) eqn:El.
+      * destruct (Nat.ltb max_level (2 + d)); [discriminate|].
+        apply (IH _ _ _ _ _ ll Hlt) in H. cbn beta iota in H. rewrite H.
+        -- cbn [rev]. rewrite <- app_assoc. reflexivity.
+        -- rewrite bs_head_snoc. exact Hb.
+      * destruct (is_rbrace c) eqn:Er.
+        -- apply rb_eq in Er; subst c. destruct d as [|d'].
+           ++ inv_ok. rewrite pfx_cons, (bs_head_not_brace _ (bs_head_app_rb _ _ Hb)). cbv zeta.
+              destruct (n <=? len + 1)%Z eqn:E; [reflexivity|].
+              rewrite pfx_cons. cbn [tok_is_brace]. change (is_brace c_rbrace) with true. cbv iota zeta.
+              rewrite E. apply Z.leb_gt in E.
+              apply (IH _ _ _ _ _ ll E) in Hr. cbn beta iota in Hr. rewrite Hr. reflexivity.
+           ++ apply (IH _ _ _ _ _ ll Hlt) in H. cbn beta iota in H. rewrite H.
+              ** cbn [rev]. rewrite <- app_assoc. reflexivity.
+              ** rewrite bs_head_snoc. exact Hb.
+        -- apply (IH _ _ _ _ _ ll Hlt) in H. cbn beta iota in H. rewrite H.
+           ++ cbn [rev]. rewrite <- app_assoc. reflexivity.
+           ++ rewrite bs_head_snoc. exact Hb.
+    + fold (bs_head t) in H.
+      assert (Hn : (n <=? len)%Z = false) by (apply Z.leb_gt; exact Hlt).
+      destruct (is_lbrace c) eqn:El.
+      * apply lb_eq in El; subst c.
+        destruct (Nat.eqb level 0 && bs_head t) eqn:Esp.
+        -- inv_ok. apply andb_prop in Esp as [E0 Eb]. apply Nat.eqb_eq in E0; subst level.
+           rewrite pfx_cons. cbn [tok_is_brace]. change (is_brace c_lbrace) with true. cbv iota zeta.
+           rewrite Hn. apply (IH _ _ _ _ _ 1 Hlt) in Hr. cbn beta iota in Hr. cbn [rev app] in Hr.
+           rewrite (Hr Eb). reflexivity.
+        -- destruct (Nat.ltb max_level (S level)); [discriminate|]. inv_ok.
+           rewrite pfx_cons. cbn [tok_is_brace]. change (is_brace c_lbrace) with true. cbv iota zeta.
+           rewrite Hn. apply (IH _ _ _ _ _ ll Hlt) in Hr. cbn beta iota in Hr. rewrite Hr. reflexivity.
+      * destruct (is_rbrace c && Nat.ltb 0 level) eqn:Erl.
+        -- inv_ok. apply andb_prop in Erl as [Er _]. apply rb_eq in Er; subst c.
+           rewrite pfx_cons. cbn [tok_is_brace]. change (is_brace c_rbrace) with true. cbv iota zeta.
+           rewrite Hn. apply (IH _ _ _ _ _ ll Hlt) in Hr. cbn beta iota in Hr. rewrite Hr. reflexivity.
+        -- inv_ok. rewrite pfx_cons. cbn [tok_is_brace]. cbv zeta.
+           destruct (is_brace c) eqn:Eb.
+           ++ rewrite Hn. apply (IH _ _ _ _ _ ll Hlt) in Hr. cbn beta iota in Hr. rewrite Hr. reflexivity.
+           ++ destruct (n <=? len + 1)%Z eqn:E; [reflexivity|]. apply Z.leb_gt in E.
+              apply (IH _ _ _ _ _ ll E) in Hr. cbn beta iota in Hr. rewrite Hr. reflexivity.
+Qed.
+
+Lemma scan_closers level :
+  exists ts, scan_go (repeat c_rbrace level) level None = Ok ts /\ cnt ts = 0.
+Proof.
+  induction level as [|l IH]; cbn [repeat scan_go]; [eexists; split; reflexivity|].
+  change (is_lbrace c_rbrace) with false. change (is_rbrace c_rbrace) with true.
+  cbn [andb Nat.ltb Nat.leb pred]. destruct IH as (r & Hr & Hc). rewrite Hr. cbn [bind].
+  eexists; split; [reflexivity|]. rewrite cnt_cons, Hc. reflexivity.
+Qed.
+
+Lemma bs_head_app a b : bs_head a = true -> bs_head (a ++ b) = true.
+Proof. destruct a; cbn; [discriminate|auto]. Qed.
+
+Definition sp_ok (sp : option (nat * str)) (s : str) : Prop :=
+  match sp with Some (_, acc) => bs_head (rev acc ++ s) = true | None => True end.
+
+Lemma prefix_rescan : forall s level sp ts len n, (len < n)%Z ->
+  scan_go s level sp = Ok ts -> sp_ok sp s ->
+  exists ts', scan_go (F s level (option_map fst sp) len n) level sp = Ok ts' /\
+              (len + Z.of_nat (cnt ts') = Z.min n (len + Z.of_nat (cnt ts)))%Z.
+Proof.
+  induction s as [|c t IH]; intros level sp ts len n Hlt H Hok.
+  - destruct sp as [[d acc]|]; cbn [scan_go] in H; inv_ok; cbn [option_map fst F sp_ok] in *.
+    + rewrite app_nil_r in Hok.
+      assert (Hc : cnt [(rev acc, 1); ([c_rbrace], 0)] = 1).
+      { rewrite !cnt_cons, (bs_head_not_brace _ Hok). reflexivity. }
+      rewrite Hc. cbn [scan_go]. change (is_lbrace c_rbrace) with false. change (is_rbrace c_rbrace) with true.
+      cbv iota. destruct d as [|d'].
+      * cbn [scan_go bind]. exists [(rev acc, 1); ([c_rbrace], 0)]; split; [reflexivity|]. rewrite Hc. cbv iota; lia.
+      * cbn [scan_go]. eexists; split; [reflexivity|].
+        rewrite !cnt_cons. cbn [rev]. rewrite (bs_head_not_brace _ (bs_head_app _ [c_rbrace] Hok)).
+        cbn [tok_is_brace]. change (is_brace c_rbrace) with true. cbn. cbv iota; lia.
+    + destruct (scan_closers level) as (r & Hr & Hc). exists r. split; [exact Hr|].
+      rewrite Hc. cbn. cbv iota; lia.
+  - destruct sp as [[d acc]|]; cbn [scan_go] in H; cbn [option_map fst F sp_ok] in *.
+    + destruct (is_lbrace c) eqn:El.
+      * destruct (Nat.ltb max_level (2 + d)) eqn:Emax; [discriminate|].
+        cbn [scan_go]. rewrite El, Emax.
+        apply (IH level (Some (S d, c :: acc)) ts len n Hlt H).
+        cbn [sp_ok]. rewrite bs_head_snoc. exact Hok.
+      * destruct (is_rbrace c) eqn:Er.
+        -- destruct d as [|d'].
+           ++ inv_ok. apply rb_eq in Er; subst c.
+              pose proof (bs_head_not_brace _ (bs_head_app_rb _ _ Hok)) as Hnb.
+              cbn [scan_go]. change (is_lbrace c_rbrace) with false. change (is_rbrace c_rbrace) with true.
+              cbv iota.
+              destruct (n <=? len + 1)%Z eqn:E.
+              ** cbn [scan_go bind]. eexists; split; [reflexivity|].
+                 apply Z.leb_le in E. rewrite !cnt_cons, Hnb. cbn [tok_is_brace].
+                 change (is_brace c_rbrace) with true. cbn [cnt filter length]. cbv iota; lia.
+              ** apply Z.leb_gt in E.
+                 destruct (IH 0 None r (len + 1)%Z n E Hr I) as (r' & Hr' & Hc').
+                 cbn [option_map] in Hr'. rewrite Hr'. cbn [bind]. eexists; split; [reflexivity|].
+                 rewrite !cnt_cons, Hnb. cbn [tok_is_brace]. change (is_brace c_rbrace) with true.
+                 cbv iota; lia.
+           ++ cbn [scan_go]. rewrite El, Er.
+              apply (IH level (Some (d', c :: acc)) ts len n Hlt H).
+              cbn [sp_ok]. rewrite bs_head_snoc. exact Hok.
+        -- cbn [scan_go]. rewrite El, Er.
+           apply (IH level (Some (d, c :: acc)) ts len n Hlt H).
+           cbn [sp_ok]. rewrite bs_head_snoc. exact Hok.
+    + fold (bs_head t) in H.
+      destruct (is_lbrace c) eqn:El.
+      * destruct (Nat.eqb level 0 && bs_head t) eqn:Esp.
+        -- inv_ok. cbn [scan_go]. rewrite El.
+           match goal with |- context [match ?x with b :: _ => N.eqb b c_bslash | [] => false end] =>
+             change (match x with b :: _ => N.eqb b c_bslash | [] => false end) with (bs_head x) end.
+           rewrite F_head, Esp.
+           apply andb_prop in Esp as [E0 Eb]. apply Nat.eqb_eq in E0; subst level.
+           destruct (IH 0 (Some (0, [])) r len n Hlt Hr Eb) as (r' & Hr' & Hc').
+           cbn [option_map fst] in Hr'. rewrite Hr'. cbn [bind]. eexists; split; [reflexivity|].
+           apply lb_eq in El; subst c. rewrite !cnt_cons. cbn [tok_is_brace].
+           change (is_brace c_lbrace) with true. cbv iota; lia.
+        -- destruct (Nat.ltb max_level (S level)) eqn:Emax; [discriminate|]. inv_ok.
+           cbn [scan_go]. rewrite El.
+           match goal with |- context [match ?x with b :: _ => N.eqb b c_bslash | [] => false end] =>
+             change (match x with b :: _ => N.eqb b c_bslash | [] => false end) with (bs_head x) end.
+           rewrite F_head, Esp, Emax.
+           destruct (IH (S level) None r len n Hlt Hr I) as (r' & Hr' & Hc').
+           cbn [option_map] in Hr'. rewrite Hr'. cbn [bind]. eexists; split; [reflexivity|].
+           apply lb_eq in El; subst c. rewrite !cnt_cons. cbn [tok_is_brace].
+           change (is_brace c_lbrace) with true. cbv iota; lia.
+      * destruct (is_rbrace c && Nat.ltb 0 level) eqn:Erl.
+        -- inv_ok. cbn [scan_go]. rewrite El, Erl.
+           destruct (IH (pred level) None r len n Hlt Hr I) as (r' & Hr' & Hc').
+           cbn [option_map] in Hr'. rewrite Hr'. cbn [bind]. eexists; split; [reflexivity|].
+           apply andb_prop in Erl as [Er _]. apply rb_eq in Er; subst c. rewrite !cnt_cons.
+           cbn [tok_is_brace]. change (is_brace c_rbrace) with true. cbv iota; lia.
+        -- inv_ok. destruct (is_brace c) eqn:Eb.
+           ++ cbn [scan_go]. rewrite El, Erl.
+              destruct (IH level None r len n Hlt Hr I) as (r' & Hr' & Hc').
+              cbn [option_map] in Hr'. rewrite Hr'. cbn [bind]. eexists; split; [reflexivity|].
+              rewrite !cnt_cons. cbn [tok_is_brace]. rewrite Eb. cbv iota; lia.
+           ++ cbn [scan_go]. rewrite El, Erl.
+              destruct (n <=? len + 1)%Z eqn:E.
+              ** destruct (scan_closers level) as (r' & Hr' & Hc'). rewrite Hr'. cbn [bind].
+                 eexists; split; [reflexivity|]. apply Z.leb_le in E.
+                 rewrite !cnt_cons. cbn [tok_is_brace]. rewrite Eb, Hc'. cbv iota; lia.
+              ** apply Z.leb_gt in E.
+                 destruct (IH level None r (len + 1)%Z n E Hr I) as (r' & Hr' & Hc').
+                 cbn [option_map] in Hr'. rewrite Hr'. cbn [bind]. eexists; split; [reflexivity|].
+                 rewrite !cnt_cons. cbn [tok_is_brace]. rewrite Eb. cbv iota; lia.
+Qed.
+
+Lemma prefix_len_lemma s n p m :
+  bibtex_prefix s n = Ok p -> bibtex_len s = Ok m ->
+  bibtex_len p = Ok (Z.to_nat (Z.min n (Z.of_nat m))).
+Proof.
+  unfold bibtex_prefix, bibtex_len. intros Hp Hm.
+  apply bind_Ok in Hm. destruct Hm as (r & Hr & Hm). injection Hm as Hm. subst m.
+  destruct (0 <? n)%Z eqn:En.
+  - apply Z.ltb_lt in En. apply bind_Ok in Hp. destruct Hp as (r2 & Hr2 & Hp).
+    rewrite Hr in Hr2. injection Hr2 as Hr2. subst r2. injection Hp as Hp. subst p.
+    pose proof (prefix_fused s 0 None r 0 n 0 En Hr) as Hf. cbn beta iota in Hf.
+    unfold pfx in Hf. cbv zeta in Hf. rewrite Hf.
+    destruct (prefix_rescan s 0 None r 0 n En Hr I) as (r' & Hr' & Hc).
+    cbn [option_map] in Hr'. fold (scan (F s 0 None 0 n)) in Hr'. rewrite Hr'. cbn [bind].
+    f_equal. fold (cnt r'). fold (cnt r). lia.
+  - apply Z.ltb_ge in En. injection Hp as Hp. subst p. cbn [scan scan_go bind filter length].
+    f_equal. lia.
+Qed.
+
+Lemma prefix_nonpos_lemma s n : (n <= 0)%Z -> bibtex_prefix s n = Ok [].
+Proof. intros H. unfold bibtex_prefix. apply Z.ltb_ge in H. rewrite H. reflexivity. Qed.
+
+Lemma depth_closers k : depth_from k (repeat c_rbrace k) = Some 0.
+Proof. induction k; cbn [repeat depth_from]; [reflexivity|]. exact IHk. Qed.
+
+Lemma F_shape_bal : forall s level sp len n,
+  depth_from (match sp with None => level | Some d => S d end) s = Some 0 ->
+  exists p k r, F s level sp len n = p ++ repeat c_rbrace k /\ s = p ++ r /\
+                depth_from (match sp with None => level | Some d => S d end) p = Some k.
+Proof.
+  induction s as [|c t IH]; intros level sp len n Hd.
+  - destruct sp as [d|]; cbn [depth_from] in Hd; [discriminate|].
+    exists [], level, []. repeat split.
+  - destruct sp as [d|]; cbn [F]; cbn [depth_from] in Hd; unfold is_lbrace, is_rbrace.
+    + destruct (N.eqb c c_lbrace) eqn:El.
+      * destruct (IH level (Some (S d)) len n Hd) as (p & k & r & H1 & H2 & H3).
+        exists (c :: p), k, r. rewrite H1, H2. repeat split. cbn [depth_from]. rewrite El. exact H3.
+      * destruct (N.eqb c c_rbrace) eqn:Er.
+        -- destruct d as [|d'].
+           ++ destruct (n <=? len + 1)%Z.
+              ** apply N.eqb_eq in Er; subst c. exists [], 1, (c_rbrace :: t). repeat split.
+              ** destruct (IH 0 None (len + 1)%Z n Hd) as (p & k & r & H1 & H2 & H3).
+                 exists (c :: p), k, r. rewrite H1, H2. repeat split. cbn [depth_from].
+                 rewrite El, Er. exact H3.
+           ++ destruct (IH level (Some d') len n Hd) as (p & k & r & H1 & H2 & H3).
+              exists (c :: p), k, r. rewrite H1, H2. repeat split. cbn [depth_from].
+              rewrite El, Er. exact H3.
+        -- destruct (IH level (Some d) len n Hd) as (p & k & r & H1 & H2 & H3).
+           exists (c :: p), k, r. rewrite H1, H2. repeat split. cbn [depth_from].
+           rewrite El, Er. exact H3.
+    + destruct (N.eqb c c_lbrace) eqn:El.
+      * destruct (Nat.eqb level 0 && bs_head t) eqn:Esp.
+        -- apply andb_prop in Esp as [E0 _]. apply Nat.eqb_eq in E0; subst level.
+           destruct (IH 0 (Some 0) len n Hd) as (p & k & r & H1 & H2 & H3).
+           exists (c :: p), k, r. rewrite H1, H2. repeat split. cbn [depth_from]. rewrite El. exact H3.
+        -- destruct (IH (S level) None len n Hd) as (p & k & r & H1 & H2 & H3).
+           exists (c :: p), k, r. rewrite H1, H2. repeat split. cbn [depth_from]. rewrite El. exact H3.
+      * destruct (N.eqb c c_rbrace) eqn:Er.
+        -- destruct level as [|l']; [discriminate|]. cbn [andb Nat.ltb Nat.leb pred].
+           destruct (IH l' None len n Hd) as (p & k & r & H1 & H2 & H3).
+           exists (c :: p), k, r. rewrite H1, H2. repeat split. cbn [depth_from]. rewrite El, Er. exact H3.
+        -- cbn [andb]. unfold is_brace, is_lbrace, is_rbrace. rewrite El, Er. cbn [orb].
+           destruct (n <=? len + 1)%Z.
+           ++ exists [c], level, t. repeat split. cbn [depth_from]. rewrite El, Er. reflexivity.
+           ++ destruct (IH level None (len + 1)%Z n Hd) as (p & k & r & H1 & H2 & H3).
+              exists (c :: p), k, r. rewrite H1, H2. repeat split. cbn [depth_from].
+              rewrite El, Er. exact H3.
+Qed.
+
+Lemma prefix_shape_lemma s n out :
+  balanced s -> bibtex_prefix s n = Ok out ->
+  exists p k, out = p ++ repeat c_rbrace k /\ is_prefix p s /\ depth_from 0 p = Some k.
+Proof.
+  unfold bibtex_prefix. intros Hb H. destruct (0 <? n)%Z eqn:En.
+  - apply Z.ltb_lt in En. inv_ok.
+    pose proof (prefix_fused s 0 None r 0 n 0 En Hr) as Hf. cbn beta iota in Hf.
+    unfold pfx in Hf. cbv zeta in Hf. rewrite Hf.
+    destruct (F_shape_bal s 0 None 0 n Hb) as (p & k & r' & H1 & H2 & H3).
+    exists p, k. split; [exact H1|]. split; [exists r'; exact H2|exact H3].
+  - inv_ok. exists [], 0. repeat split. exists s. reflexivity.
+Qed.
+
+Lemma prefix_balanced_lemma s n out : balanced s -> bibtex_prefix s n = Ok out -> balanced out.
+Proof.
+  intros Hb H. destruct (prefix_shape_lemma s n out Hb H) as (p & k & H1 & _ & H3).
+  unfold balanced. rewrite H1, depth_from_app, H3. apply depth_closers.
+Qed.
+
+Lemma prefix_closes_refuted_lemma :
+  exists s n out, bibtex_prefix s n = Ok out /\ cdepth_from 0 out <> 0.
+Proof.
+  exists (s2l "{\{"), 1%Z, (s2l "{\{}"). split; [vm_compute; reflexivity|vm_compute; discriminate].
+Qed.
+
+(* ------------------------------------------------------------------ purify *)
+Definition plainc (c : char) : bool := is_alnum c || N.eqb c c_space.
+
+Lemma purify_tok_alphabet t : Forall (fun c => plainc c = true) (purify_tok t).
+Proof.
+  destruct t as [s l]. unfold purify_tok.
+  destruct (Nat.eqb l 1 && _).
+  - apply Forall_forall. intros x Hin. apply filter_In in Hin as [_ H]. unfold plainc. rewrite H. reflexivity.
+  - destruct s as [|c [|c2 s]]; try constructor.
+    destruct (is_alnum c) eqn:Ea.
+    + constructor; [|constructor]. unfold plainc. rewrite Ea. reflexivity.
+    + destruct (is_space c || N.eqb c c_hyphen || N.eqb c c_tilde); constructor; [reflexivity|constructor].
+Qed.
+
+Lemma Forall_flat_map_intro {X Y} (P : Y -> Prop) (f : X -> list Y) l :
+  (forall x, Forall P (f x)) -> Forall P (flat_map f l).
+Proof. intros H. induction l; cbn [flat_map]; [constructor|]. apply Forall_app. auto. Qed.
+
+Lemma purify_alphabet_lemma s p : bibtex_purify s = Ok p -> Forall (fun c => plainc c = true) p.
+Proof.
+  unfold bibtex_purify. intros H. inv_ok. apply Forall_flat_map_intro. apply purify_tok_alphabet.
+Qed.
+
+Lemma plainc_not_brace c : plainc c = true -> is_lbrace c = false /\ is_rbrace c = false.
+Proof.
+  intros H. unfold is_lbrace, is_rbrace. split.
+  - destruct (N.eqb_spec c c_lbrace) as [->|]; [vm_compute in H; discriminate|reflexivity].
+  - destruct (N.eqb_spec c c_rbrace) as [->|]; [vm_compute in H; discriminate|reflexivity].
+Qed.
+
+Lemma scan_plain q level : Forall (fun c => plainc c = true) q ->
+  scan_go q level None = Ok (map (fun c => ([c], level)) q).
+Proof.
+  induction 1 as [|c q Hc _ IH]; [reflexivity|].
+  cbn [scan_go map]. destruct (plainc_not_brace c Hc) as [El Er]. rewrite El, Er. cbn [andb].
+  rewrite IH. reflexivity.
+Qed.
+
+Lemma purify_plain q : Forall (fun c => plainc c = true) q ->
+  flat_map purify_tok (map (fun c => ([c], 0)) q) = q.
+Proof.
+  induction 1 as [|c q Hc _ IH]; [reflexivity|].
+  cbn [map flat_map]. rewrite IH. unfold purify_tok. cbn [Nat.eqb andb].
+  unfold plainc in Hc. destruct (is_alnum c) eqn:Ea; [reflexivity|].
+  cbn [orb] in Hc. apply N.eqb_eq in Hc; subst c. reflexivity.
+Qed.
+
+Lemma purify_idem_lemma s p : bibtex_purify s = Ok p -> bibtex_purify p = Ok p.
+Proof.
+  intros H. pose proof (purify_alphabet_lemma s p H) as Hp.
+  unfold bibtex_purify, scan. rewrite (scan_plain p 0 Hp). cbn [bind]. rewrite (purify_plain p Hp).
+  reflexivity.
+Qed.
+
+(* ------------------------------------------------------------------ substring *)
+Ltac zb := repeat match goal with
+  | H : (_ <? _)%Z = true |- _ => apply Z.ltb_lt in H
+  | H : (_ <? _)%Z = false |- _ => apply Z.ltb_ge in H
+  | H : (_ <=? _)%Z = true |- _ => apply Z.leb_le in H
+  | H : (_ <=? _)%Z = false |- _ => apply Z.leb_gt in H
+  | H : (_ =? _)%Z = true |- _ => apply Z.eqb_eq in H
+  | H : (_ =? _)%Z = false |- _ => apply Z.eqb_neq in H
+  end.
+
+Lemma substring_spec_lemma s start len : bibtex_substring s start len = substring_spec s start len.
+Proof.
+  unfold bibtex_substring, substring_spec, pyslice, clamp_idx. cbv zeta.
+  set (n := Z.of_nat (length s)).
+  assert (Hn : (0 <= n)%Z) by lia.
+  destruct (len <=? 0)%Z eqn:E1, (start =? 0)%Z eqn:E2, (n <? Z.abs start)%Z eqn:E3; cbn [orb];
+  repeat match goal with |- context [if ?b then _ else _] => destruct b eqn:? end; zb;
+  try reflexivity; try (exfalso; lia);
+  try (match goal with |- firstn ?x _ = [] => replace x with 0%nat by lia; reflexivity end);
+  try (f_equal; [lia | f_equal; lia]).
+Qed.
+
+Lemma substring_length_le_lemma s start len : length (bibtex_substring s start len) <= length s.
+Proof.
+  rewrite substring_spec_lemma. unfold substring_spec. cbv zeta.
+  repeat match goal with |- context [if ?b then _ else _] => destruct b end; cbn [length]; try lia;
+  rewrite firstn_length, skipn_length; lia.
+Qed.
+
+(* the selection is one contiguous piece of the string *)
+Lemma substring_contiguous_lemma s start len :
+  exists a b, s = a ++ bibtex_substring s start len ++ b.
+Proof.
+  rewrite substring_spec_lemma. unfold substring_spec. cbv zeta.
+  repeat match goal with |- context [if ?b then _ else _] => destruct b end.
+  - exists [], s. reflexivity.
+  - eexists (firstn _ s), (skipn _ (skipn _ s)). rewrite firstn_skipn, firstn_skipn. reflexivity.
+  - eexists (firstn _ s), (skipn _ (skipn _ s)). rewrite firstn_skipn, firstn_skipn. reflexivity.
+Qed.
+
+(* for every string (balanced or not) the output is a prefix followed by closing braces,
+   never more of them than the prefix leaves open (clamped depth) *)
+Lemma F_shape_all : forall s level sp len n,
+  exists p k r, F s level sp len n = p ++ repeat c_rbrace k /\ s = p ++ r /\
+                k <= cdepth_from (match sp with None => level | Some d => S d end) p.
+Proof.
+  induction s as [|c t IH]; intros level sp len n.
+  - destruct sp as [d|]; cbn [F].
+    + exists [], 1, []. repeat split. cbn [cdepth_from]. lia.
+    + exists [], level, []. repeat split. cbn [cdepth_from]. lia.
+  - destruct sp as [d|]; cbn [F]; unfold is_lbrace, is_rbrace.
+    + destruct (N.eqb c c_lbrace) eqn:El.
+      * destruct (IH level (Some (S d)) len n) as (p & k & r & H1 & H2 & H3).
+        exists (c :: p), k, r. rewrite H1, H2. repeat split. cbn [cdepth_from]. rewrite El. exact H3.
+      * destruct (N.eqb c c_rbrace) eqn:Er.
+        -- destruct d as [|d'].
+           ++ destruct (n <=? len + 1)%Z.
+              ** apply N.eqb_eq in Er; subst c. exists [], 1, (c_rbrace :: t). repeat split. cbn [cdepth_from]. lia.
+              ** destruct (IH 0 None (len + 1)%Z n) as (p & k & r & H1 & H2 & H3).
+                 exists (c :: p), k, r. rewrite H1, H2. repeat split. cbn [cdepth_from pred].
+                 rewrite El, Er. exact H3.
+           ++ destruct (IH level (Some d') len n) as (p & k & r & H1 & H2 & H3).
+              exists (c :: p), k, r. rewrite H1, H2. repeat split. cbn [cdepth_from pred].
+              rewrite El, Er. exact H3.
+        -- destruct (IH level (Some d) len n) as (p & k & r & H1 & H2 & H3).
+           exists (c :: p), k, r. rewrite H1, H2. repeat split. cbn [cdepth_from].
+           rewrite El, Er. exact H3.
+    + destruct (N.eqb c c_lbrace) eqn:El.
+      * destruct (Nat.eqb level 0 && bs_head t) eqn:Esp.
+        -- apply andb_prop in Esp as [E0 _]. apply Nat.eqb_eq in E0; subst level.
+           destruct (IH 0 (Some 0) len n) as (p & k & r & H1 & H2 & H3).
+           exists (c :: p), k, r. rewrite H1, H2. repeat split. cbn [cdepth_from]. rewrite El. exact H3.
+        -- destruct (IH (S level) None len n) as (p & k & r & H1 & H2 & H3).
+           exists (c :: p), k, r. rewrite H1, H2. repeat split. cbn [cdepth_from]. rewrite El. exact H3.
+      * destruct (N.eqb c c_rbrace) eqn:Er.
+        -- destruct level as [|l']; cbn [andb Nat.ltb Nat.leb pred].
+           ++ unfold is_brace, is_lbrace, is_rbrace. rewrite El, Er. cbn [orb].
+              destruct (IH 0 None len n) as (p & k & r & H1 & H2 & H3).
+              exists (c :: p), k, r. rewrite H1, H2. repeat split. cbn [cdepth_from pred].
+              rewrite El, Er. exact H3.
+           ++ destruct (IH l' None len n) as (p & k & r & H1 & H2 & H3).
+              exists (c :: p), k, r. rewrite H1, H2. repeat split. cbn [cdepth_from pred].
+              rewrite El, Er. exact H3.
+        -- cbn [andb]. unfold is_brace, is_lbrace, is_rbrace. rewrite El, Er. cbn [orb].
+           destruct (n <=? len + 1)%Z.
+           ++ exists [c], level, t. repeat split. cbn [cdepth_from]. rewrite El, Er. lia.
+           ++ destruct (IH level None (len + 1)%Z n) as (p & k & r & H1 & H2 & H3).
+              exists (c :: p), k, r. rewrite H1, H2. repeat split. cbn [cdepth_from].
+              rewrite El, Er. exact H3.
+Qed.
+
+Lemma F_shape_exact : forall s level sp len n,
+  ends_in_special_go s level sp = false ->
+  exists p k r, F s level sp len n = p ++ repeat c_rbrace k /\ s = p ++ r /\
+                k = cdepth_from (match sp with None => level | Some d => S d end) p.
+Proof.
+  induction s as [|c t IH]; intros level sp len n He.
+  - destruct sp as [d|]; cbn [ends_in_special_go] in He; [discriminate|].
+    exists [], level, []. repeat split.
+  - cbn [ends_in_special_go] in He. fold (bs_head t) in He.
+    destruct sp as [d|]; cbn [F]; unfold is_lbrace, is_rbrace.
+    + destruct (N.eqb c c_lbrace) eqn:El.
+      * destruct (IH level (Some (S d)) len n He) as (p & k & r & H1 & H2 & H3).
+        exists (c :: p), k, r. rewrite H1, H2. repeat split. cbn [cdepth_from]. rewrite El. exact H3.
+      * destruct (N.eqb c c_rbrace) eqn:Er.
+        -- destruct d as [|d'].
+           ++ destruct (n <=? len + 1)%Z.
+              ** apply N.eqb_eq in Er; subst c. exists [], 1, (c_rbrace :: t). repeat split.
+              ** destruct (IH 0 None (len + 1)%Z n He) as (p & k & r & H1 & H2 & H3).
+                 exists (c :: p), k, r. rewrite H1, H2. repeat split. cbn [cdepth_from pred].
+                 rewrite El, Er. exact H3.
+           ++ destruct (IH level (Some d') len n He) as (p & k & r & H1 & H2 & H3).
+              exists (c :: p), k, r. rewrite H1, H2. repeat split. cbn [cdepth_from pred].
+              rewrite El, Er. exact H3.
+        -- destruct (IH level (Some d) len n He) as (p & k & r & H1 & H2 & H3).
+           exists (c :: p), k, r. rewrite H1, H2. repeat split. cbn [cdepth_from].
+           rewrite El, Er. exact H3.
+    + destruct (N.eqb c c_lbrace) eqn:El.
+      * destruct (Nat.eqb level 0 && bs_head t) eqn:Esp.
+        -- apply andb_prop in Esp as [E0 _]. apply Nat.eqb_eq in E0; subst level.
+           destruct (IH 0 (Some 0) len n He) as (p & k & r & H1 & H2 & H3).
+           exists (c :: p), k, r. rewrite H1, H2. repeat split. cbn [cdepth_from]. rewrite El. exact H3.
+        -- destruct (IH (S level) None len n He) as (p & k & r & H1 & H2 & H3).
+           exists (c :: p), k, r. rewrite H1, H2. repeat split. cbn [cdepth_from]. rewrite El. exact H3.
+      * destruct (N.eqb c c_rbrace) eqn:Er.
+        -- destruct level as [|l']; cbn [andb Nat.ltb Nat.leb pred] in He |- *.
+           ++ unfold is_brace, is_lbrace, is_rbrace. rewrite El, Er. cbn [orb].
+              destruct (IH 0 None len n He) as (p & k & r & H1 & H2 & H3).
+              exists (c :: p), k, r. rewrite H1, H2. repeat split. cbn [cdepth_from pred].
+              rewrite El, Er. exact H3.
+           ++ destruct (IH l' None len n He) as (p & k & r & H1 & H2 & H3).
+              exists (c :: p), k, r. rewrite H1, H2. repeat split. cbn [cdepth_from pred].
+              rewrite El, Er. exact H3.
+        -- cbn [andb]. unfold is_brace, is_lbrace, is_rbrace. rewrite El, Er. cbn [orb].
+           destruct (n <=? len + 1)%Z.
+           ++ exists [c], level, t. repeat split. cbn [cdepth_from]. rewrite El, Er. reflexivity.
+           ++ destruct (IH level None (len + 1)%Z n He) as (p & k & r & H1 & H2 & H3).
+              exists (c :: p), k, r. rewrite H1, H2. repeat split. cbn [cdepth_from].
+              rewrite El, Er. exact H3.
+Qed.
+
+Lemma prefix_shape_exact_lemma s n out :
+  ends_in_special s = false -> bibtex_prefix s n = Ok out ->
+  exists p k, out = p ++ repeat c_rbrace k /\ is_prefix p s /\ k = cdepth_from 0 p.
+Proof.
+  unfold bibtex_prefix. intros He H. destruct (0 <? n)%Z eqn:En.
+  - apply Z.ltb_lt in En. inv_ok.
+    pose proof (prefix_fused s 0 None r 0 n 0 En Hr) as Hf. cbn beta iota in Hf.
+    unfold pfx in Hf. cbv zeta in Hf. rewrite Hf.
+    destruct (F_shape_exact s 0 None 0 n He) as (p & k & r' & H1 & H2 & H3).
+    exists p, k. split; [exact H1|]. split; [exists r'; exact H2|exact H3].
+  - inv_ok. exists [], 0. repeat split. exists s. reflexivity.
+Qed.
+
+Lemma prefix_is_prefix_lemma s n out :
+  bibtex_prefix s n = Ok out ->
+  exists p k, out = p ++ repeat c_rbrace k /\ is_prefix p s /\ k <= cdepth_from 0 p.
+Proof.
+  unfold bibtex_prefix. intros H. destruct (0 <? n)%Z eqn:En.
+  - apply Z.ltb_lt in En. inv_ok.
+    pose proof (prefix_fused s 0 None r 0 n 0 En Hr) as Hf. cbn beta iota in Hf.
+    unfold pfx in Hf. cbv zeta in Hf. rewrite Hf.
+    destruct (F_shape_all s 0 None 0 n) as (p & k & r' & H1 & H2 & H3).
+    exists p, k. split; [exact H1|]. split; [exists r'; exact H2|exact H3].
+  - inv_ok. exists [], 0. repeat split; [exists s; reflexivity|cbn; lia].
+Qed.
+
+(* ------------------------------------------------------------------ no foreign exception anywhere *)
+Lemma primitives_total_lemma s :
+  (too_deep 100 0 s = false /\
+   (exists n, bibtex_len s = Ok n) /\ (forall k, exists p, bibtex_prefix s k = Ok p) /\
+   (exists p, bibtex_purify s = Ok p) /\ (forall m, exists o, change_case s m = Ok o)) \/
+  (too_deep 100 0 s = true /\
+   bibtex_len s = PyErr E_BIBTEX (-1) /\
+   (forall k, (0 < k)%Z -> bibtex_prefix s k = PyErr E_BIBTEX (-1)) /\
+   bibtex_purify s = PyErr E_BIBTEX (-1) /\ (forall m, change_case s m = PyErr E_BIBTEX (-1))).
+Proof.
+  destruct (scan_total_lemma s) as [[Ht Hs]|[Ht [ts Hs]]]; [right|left]; (split; [exact Ht|]).
+  - unfold bibtex_len, bibtex_prefix, bibtex_purify, change_case. rewrite Hs. cbn [bind].
+    repeat split; auto. intros k Hk. apply Z.ltb_lt in Hk. rewrite Hk. reflexivity.
+  - unfold bibtex_len, bibtex_prefix, bibtex_purify, change_case. rewrite Hs. cbn [bind].
+    repeat split; eauto. intros k. destruct (0 <? k)%Z; eauto.
+Qed.
+
+(* ------------------------------------------------------------------ substring: negative start = mirror image *)
+Lemma mirror_nat {X} (s : list X) a b L : b + L + a = length s ->
+  firstn L (skipn b s) = rev (firstn L (skipn a (rev s))).
+Proof.
+  intros H. rewrite skipn_rev. replace (length s - a) with (b + L) by lia.
+  rewrite firstn_rev, rev_involutive, firstn_length.
+  replace (Nat.min (b + L) (length s) - L) with b by lia.
+  rewrite skipn_firstn_comm. f_equal. lia.
+Qed.
+
+Lemma substring_mirror_lemma s k l : (0 < k)%Z ->
+  bibtex_substring s (- k) l = rev (bibtex_substring (rev s) k l).
+Proof.
+  intros Hk. rewrite !substring_spec_lemma. unfold substring_spec. rewrite rev_length. cbv zeta.
+  set (n := Z.of_nat (length s)).
+  assert (Hn : n = Z.of_nat (length s)) by reflexivity.
+  destruct (l <=? 0)%Z eqn:E1; [reflexivity|].
+  replace (- k =? 0)%Z with false by (symmetry; apply Z.eqb_neq; lia).
+  replace (k =? 0)%Z with false by (symmetry; apply Z.eqb_neq; lia).
+  replace (Z.abs (- k)) with k by lia. replace (Z.abs k) with k by lia.
+  destruct (n <? k)%Z eqn:E3; cbn [orb]; [reflexivity|].
+  replace (0 <? - k)%Z with false by (symmetry; apply Z.ltb_ge; lia).
+  replace (0 <? k)%Z with true by (symmetry; apply Z.ltb_lt; lia).
+  zb. replace (- - k)%Z with k by lia.
+  apply mirror_nat. lia.
+Qed.
+
+Lemma firstn_min_length {X} (l : list X) a : firstn (Nat.min a (length l)) l = firstn a l.
+Proof.
+  destruct (Nat.le_gt_cases a (length l)) as [H|H].
+  - rewrite Nat.min_l by exact H. reflexivity.
+  - rewrite Nat.min_r by lia. rewrite firstn_all, firstn_all2 by lia. reflexivity.
+Qed.
+
+(* positive start: plain 1-based selection, clamped at the end of the string *)
+Lemma substring_positive_lemma s start len : (1 <= start)%Z ->
+  bibtex_substring s start len = firstn (Z.to_nat len) (skipn (Z.to_nat (start - 1)) s).
+Proof.
+  intros Hs. rewrite substring_spec_lemma. unfold substring_spec. cbv zeta.
+  set (n := Z.of_nat (length s)). assert (Hn : n = Z.of_nat (length s)) by reflexivity.
+  replace (start =? 0)%Z with false by (symmetry; apply Z.eqb_neq; lia).
+  replace (Z.abs start) with start by lia.
+  replace (0 <? start)%Z with true by (symmetry; apply Z.ltb_lt; lia).
+  destruct (len <=? 0)%Z eqn:E1; cbn [orb].
+  - zb. replace (Z.to_nat len) with 0 by lia. reflexivity.
+  - destruct (n <? start)%Z eqn:E3; zb.
+    + rewrite skipn_all2 by lia. destruct (Z.to_nat len); reflexivity.
+    + rewrite <- (firstn_min_length (skipn _ s) (Z.to_nat len)). f_equal. rewrite skipn_length. lia.
+Qed.
+
+(* ------------------------------------------------------------------ what the Spec's text length means *)
+Definition count_nonbrace (g : str) : nat := length (filter (fun c => negb (is_brace c)) g).
+
+Lemma text_len_special_go s : forall inner d k, depth_from k inner = Some 0 ->
+  text_len_go (inner ++ c_rbrace :: s) d (Some k) = S (text_len_go s 0 None).
+Proof.
+  induction inner as [|c t IH]; intros d k Hd; cbn [depth_from] in Hd.
+  - injection Hd as ->. reflexivity.
+  - cbn [app text_len_go]. destruct (N.eqb c c_lbrace); [apply IH; exact Hd|].
+    destruct (N.eqb c c_rbrace); [|apply IH; exact Hd].
+    destruct k; [discriminate|apply IH; exact Hd].
+Qed.
+
+Lemma text_len_group_go s : forall g k, depth_from k g = Some 0 ->
+  text_len_go (g ++ c_rbrace :: s) (S k) None = count_nonbrace g + text_len_go s 0 None.
+Proof.
+  induction g as [|c t IH]; intros k Hd; cbn [depth_from] in Hd.
+  - injection Hd as ->. reflexivity.
+  - cbn [app text_len_go]. unfold count_nonbrace, is_brace, is_lbrace, is_rbrace. cbn [filter].
+    destruct (N.eqb c c_lbrace) eqn:El; cbn [orb negb Nat.eqb andb].
+    + apply IH. exact Hd.
+    + destruct (N.eqb c c_rbrace) eqn:Er; cbn [negb].
+      * destruct k; [discriminate|]. cbn [pred]. apply IH. exact Hd.
+      * cbn [length]. rewrite (IH k Hd). reflexivity.
+Qed.
+
+Lemma text_len_laws_lemma :
+  text_len [] = 0 /\
+  (forall c s, is_brace c = false -> text_len (c :: s) = S (text_len s)) /\
+  (forall s, text_len (c_rbrace :: s) = text_len s) /\
+  (forall inner s, balanced inner ->
+     text_len (c_lbrace :: c_bslash :: inner ++ c_rbrace :: s) = S (text_len s)) /\
+  (forall g s, balanced g -> bs_head g = false ->
+     text_len (c_lbrace :: g ++ c_rbrace :: s) = count_nonbrace g + text_len s).
+Proof.
+  split; [reflexivity|]. split; [|split; [reflexivity|split]].
+  - intros c s H. unfold is_brace, is_lbrace, is_rbrace in H. apply orb_false_elim in H as [El Er].
+    unfold text_len. cbn [text_len_go]. rewrite El, Er. reflexivity.
+  - intros inner s Hb. unfold text_len. cbn [text_len_go Nat.eqb andb].
+    change (N.eqb c_lbrace c_lbrace) with true. change (N.eqb c_bslash c_bslash) with true.
+    change (N.eqb c_bslash c_lbrace) with false. change (N.eqb c_bslash c_rbrace) with false. cbv iota.
+    apply text_len_special_go. exact Hb.
+  - intros g s Hb Hh. unfold text_len. cbn [text_len_go Nat.eqb andb].
+    change (N.eqb c_lbrace c_lbrace) with true. cbv iota.
+    assert (E : match g ++ c_rbrace :: s with b :: _ => N.eqb b c_bslash | [] => false end = false).
+    { destruct g; [reflexivity|exact Hh]. }
+    rewrite E. apply text_len_group_go. exact Hb.
+Qed.
